@@ -10,6 +10,7 @@ import (
 
 	"github.com/lianxiangcloud/linkchain/libs/common"
 	"github.com/lianxiangcloud/linkchain/mempool"
+	"github.com/lianxiangcloud/linkchain/types"
 
 	"verif/h/internal/core"
 	"verif/shim/goshim"
@@ -107,6 +108,8 @@ func runSeq(c *core.Ctx) {
 		return
 	}
 	defer w.close()
+	w.inj = &injectingPool{Mempool: w.N.Mempool}
+	w.N.App.SetMempool(w.inj)
 	goshim.Seed(shimSeed) // after the (cached, separately seeded) warm chain: a replayed case draws the same shim randomness
 	nOps := c.Rng.Range(100, 150)
 	w.afterOp(opCtx{kind: "init", sender: -1}, "start")
@@ -217,9 +220,59 @@ func (w *world) maybeDropZero() bool {
 	return false
 }
 
+// injectingPool is the application's handle on the pool with one scheduling point exposed: a one-shot hook runs
+// when CommitBlock asks for the pool lock, before the lock is taken. The hook submits a transaction, i.e. it
+// plays a submission that arrives at exactly that moment. With the lock taken where the application takes it
+// (before it swaps the speculative state) that is a submission just before the commit; if the swap ever moves
+// out of the locked region the submission lands between the swap and Update.
+type injectingPool struct {
+	types.Mempool
+	hook func()
+}
+
+func (p *injectingPool) Lock() {
+	if h := p.hook; h != nil {
+		p.hook = nil
+		h()
+	}
+	p.Mempool.Lock()
+}
+
+// armInjection: with some probability the next commit is accompanied by a valid submission at its pool-lock point.
+func (w *world) armInjection() {
+	if w.inj == nil || !w.r.Chance(0.35) {
+		return
+	}
+	w.inj.hook = func() {
+		v := viewOf(w.N)
+		g, err := w.genClass(v, "valid")
+		if err != nil || g == nil || g.tx == nil {
+			w.c.Count("gen_errors", 1)
+			return
+		}
+		t := w.register(g, false)
+		res := w.N.Mempool.AddTx("", g.tx)
+		t.Results = append(t.Results, errClass(res))
+		if res == nil {
+			t.Accepted = true
+		}
+		t.Injected = true
+		w.log(opRec{Op: "submit", Class: "valid@commit-lock-point", Tx: short(t.Hash), From: w.fromStr(t), Nonce: w.nonceStr(t), Res: errClass(res)})
+		w.c.Count("submissions_injected_at_commit_lock_point", 1)
+		w.c.Count("submissions", 1)
+		if res == nil {
+			w.c.Count("submissions_injected_at_commit_lock_point_admitted", 1)
+		}
+	}
+}
+
 func (w *world) opCommitSelf() {
 	drop := w.maybeDropZero()
+	w.armInjection()
 	blk := w.commitSelf("before a commit")
+	if w.inj != nil {
+		w.inj.hook = nil
+	}
 	mempool.GoodTxDropTime = never
 	if blk == nil {
 		return
@@ -227,7 +280,7 @@ func (w *world) opCommitSelf() {
 	w.taint, w.taintInfo = map[common.Address]string{}, map[common.Address]string{}
 	after := fmt.Sprintf("commit of own block %d (%d txs, drop0=%v)", blk.Height, blk.NumTxs, drop)
 	w.log(opRec{Op: "commit", Class: "self", Res: fmt.Sprintf("h=%d txs=%d", blk.Height, blk.NumTxs), Note: fmt.Sprintf("drop0=%v", drop)})
-	w.afterOp(opCtx{kind: "commit", sender: -1}, after)
+	w.afterOp(opCtx{kind: "commit", sender: -1, drop0: drop}, after)
 	if !w.stop {
 		w.probe("after " + after)
 	}
@@ -239,7 +292,11 @@ func (w *world) opCommitForeign() {
 		w.genRivals(v)
 	}
 	drop := w.maybeDropZero()
+	w.armInjection()
 	blk := w.commitForeign("foreign commit")
+	if w.inj != nil {
+		w.inj.hook = nil
+	}
 	mempool.GoodTxDropTime = never
 	if blk == nil {
 		return
@@ -247,7 +304,7 @@ func (w *world) opCommitForeign() {
 	w.taint, w.taintInfo = map[common.Address]string{}, map[common.Address]string{}
 	after := fmt.Sprintf("commit of foreign block %d (%d txs, drop0=%v)", blk.Height, blk.NumTxs, drop)
 	w.log(opRec{Op: "commit", Class: "foreign", Res: fmt.Sprintf("h=%d txs=%d", blk.Height, blk.NumTxs), Note: fmt.Sprintf("drop0=%v", drop)})
-	w.afterOp(opCtx{kind: "commit", sender: -1}, after)
+	w.afterOp(opCtx{kind: "commit", sender: -1, drop0: drop}, after)
 	if !w.stop {
 		w.probe("after " + after)
 	}
